@@ -163,10 +163,6 @@ theorem many0F_slots {α β : Type} (p : P β) (f : α → Bool → R) (Rel : α
         simp only [List.length_append, List.length_cons] at hlen ⊢; omega
       rw [if_neg hne, hm]; rfl
 
-theorem forall2_eq {α} : ∀ {xs ys : List α}, All2 Eq xs ys → xs = ys
-  | _, _, .nil => rfl
-  | _, _, .cons h t => by rw [h, forall2_eq t]
-
 /-- `many_till(slot, eof)` over the rendering of a non-empty list whose slot parser absorbs every
 blank around its element. -/
 theorem manyTillF_slots {α : Type} (p : P α) (f : α → Bool → R) (okx : α → Prop) (Start : List Char → Prop)
